@@ -48,7 +48,19 @@ def _send(fd, data: bytes):
         off += os.write(fd, mv[off:off + (1 << 16)])
 
 
-def _recv(fd):
+class WorkerSilent(Exception):
+    """A worker that was handed a task produced nothing for STUCK_AFTER_S of real time (it is blocked, not slow)."""
+
+
+STUCK_AFTER_S = 150.0
+
+
+def _recv(fd, stuck_after=None):
+    if stuck_after is not None:
+        import select
+        r, _, _ = select.select([fd], [], [], stuck_after)
+        if not r:
+            raise WorkerSilent
     hdr = b""
     while len(hdr) < 8:
         c = os.read(fd, 8 - len(hdr))
@@ -73,10 +85,61 @@ def starmapstar(args):
     return list(itertools.starmap(args[0], args[1]))
 
 
+TASK_NO = 0          # in a worker: number of the task being executed (the worker's own simulated clock: see SimTimer)
+
+
+class SimTimer:
+    """Stand-in for threading.Timer inside pool workers.  Simulated time: a task takes less than any timer's interval,
+    but between two tasks of one worker arbitrarily much time passes - so a timer that is still armed when the worker
+    starts its next task has expired, and fires at that task's first parse (`fire_stale_timers`, called by the Lark
+    seam).  Timers started and cancelled within one task never fire."""
+    armed: list = []
+    fire_stale = False
+
+    def __init__(self, interval, function, args=None, kwargs=None):
+        self.interval, self.function = interval, function
+        self.args, self.kwargs = list(args or []), dict(kwargs or {})
+        self.daemon = True
+        self.name = "SimTimer"
+        self._state = "new"
+        self.task_no = None
+
+    def start(self):
+        if self._state != "new":
+            raise RuntimeError("threads can only be started once")
+        self._state = "armed"
+        self.task_no = TASK_NO
+        SimTimer.armed.append(self)
+
+    def cancel(self):
+        if self._state in ("new", "armed"):
+            self._state = "cancelled"
+
+    def is_alive(self):
+        return self._state == "armed"
+
+    def join(self, timeout=None):
+        return None
+
+
+def fire_stale_timers():
+    if not SimTimer.fire_stale:
+        return
+    for t in list(SimTimer.armed):
+        if t._state == "armed" and t.task_no is not None and t.task_no < TASK_NO:
+            t._state = "fired"
+            SimTimer.armed.remove(t)
+            t.function(*t.args, **t.kwargs)
+        elif t._state != "armed":
+            SimTimer.armed.remove(t)
+
+
 def _worker_main(rfd, wfd, initializer, initargs):
+    global TASK_NO
     if initializer is not None:
         initializer(*initargs)
     while True:
+        TASK_NO += 1
         try:
             raw = _recv(rfd)
         except EOFError:
@@ -98,6 +161,20 @@ def _worker_main(rfd, wfd, initializer, initargs):
         _send(wfd, out)
 
 
+def _hold_sut_locks():
+    import sys as _sys
+    import threading as _th
+    lock_types = (type(_th.Lock()), type(_th.RLock()))
+    held = []
+    for modname, mod in list(_sys.modules.items()):
+        if not modname.startswith("rzilcompiler") or mod is None:
+            continue
+        for v in list(vars(mod).values()):
+            if isinstance(v, lock_types) and v.acquire(blocking=False):
+                held.append(v)
+    return held
+
+
 _PARENT_FDS: set[int] = set()     # parent-side pipe ends; closed in every new child
 _LIVE_POOLS: list = []
 
@@ -107,7 +184,16 @@ class _Worker:
         self.wid = wid
         p2c_r, p2c_w = os.pipe()
         c2p_r, c2p_w = os.pipe()
-        pid = os.fork()
+        # fault "fork while another caller thread is inside a critical section": every lock the code under test keeps in
+        # its module globals is held by "that thread" at the moment of the fork (fork start only); the child inherits it held
+        held = _hold_sut_locks() if SimPool.fork_with_held_locks and SimPool.start_method == "fork" else []
+        pid = -1
+        try:
+            pid = os.fork()
+        finally:
+            if held and pid != 0:
+                for lk in held:
+                    lk.release()
         if pid == 0:
             try:
                 os.close(p2c_w)
@@ -117,7 +203,15 @@ class _Worker:
                         os.close(fd)
                     except OSError:
                         pass
-                signal.signal(signal.SIGINT, signal.SIG_IGN)
+                # like a multiprocessing child: default SIGINT handling, a parent process object, a name of its own
+                signal.signal(signal.SIGINT, signal.default_int_handler)
+                try:
+                    import multiprocessing.process as _mpp
+                    _mpp._parent_process = _mpp._ParentProcess("MainProcess", os.getppid(), None)
+                    _mpp.current_process()._name = f"SimPoolWorker-{wid + 1}"
+                    _mpp.current_process()._identity = (wid + 1,)
+                except Exception:  # noqa: BLE001
+                    pass
                 if SimPool.start_method == "spawn" and SimPool.import_snapshot:
                     # spawn / forkserver start: the worker has the modules as they were right after import, not as the
                     # parent has changed them since (module globals rebound later are back to their initial values)
@@ -317,6 +411,7 @@ class SimPool:
     import_snapshot: dict = {}  # module name -> shallow copy of its globals taken right after import
     snapshot_keep: dict = {}    # module name -> names the harness patched on purpose (seams), kept as they are
     fail_create = None          # exception instance to raise from the constructor (resource exhaustion at pool creation)
+    fork_with_held_locks = False  # see _Worker.__init__
     reentry = None              # {"at": n, "count": 0, "fn": callable}: while the caller is blocked on this pool for the n-th
                                 # time "another caller thread" runs fn to completion (a schedule of two overlapping API calls)
 
@@ -419,7 +514,12 @@ class SimPool:
             return
         # deliver
         try:
-            raw = _recv(w.rfd)
+            raw = _recv(w.rfd, STUCK_AFTER_S)
+        except WorkerSilent:
+            self.log.add("worker-stuck", w.wid, *w.busy)
+            self.stats["worker_stuck"] = self.stats.get("worker_stuck", 0) + 1
+            self._handler_dead = True       # nothing will ever arrive from it; whoever waits for this task hangs
+            raise SimHang(f"worker {w.wid} is blocked inside task {w.busy}: no result after {STUCK_AFTER_S:.0f} s of real time")
         except EOFError:
             self.log.add("worker-died", w.wid, *w.busy)
             self.stats["worker_died"] = self.stats.get("worker_died", 0) + 1
